@@ -345,6 +345,7 @@ def instrumented(sess):
     orig_invoke = rw_mod.RewritingContext._invoke_patch
 
     def invoke(self, patch, actual_block, actual_offset, context, **kw):
+        sess.cache_cfg = self._module.ir.cfg
         res = orig_invoke(self, patch, actual_block, actual_offset, context, **kw)
         if isinstance(patch, SimPatch):
             cap = capture_result(res) if res is not None else None
@@ -390,6 +391,9 @@ def run_session(world, model, sdesc, armed, index, logger=None, gen_cb=None, che
         functions = []
     sess.functions = functions
     lg = logger or logging.getLogger("sim.null")
+    if not lg.handlers:
+        lg.addHandler(logging.NullHandler())
+        lg.propagate = False
     ctx = gtirb_rewriting.RewritingContext(m, functions, logger=lg)
     sess.ctx = ctx
     ops = sdesc["ops"]
@@ -433,6 +437,10 @@ def run_session(world, model, sdesc, armed, index, logger=None, gen_cb=None, che
             reg_counter += len(exp)
         else:
             raise core.HarnessError(f"unknown op kind {k}")
+    sess.pre_blocks = {b.uuid for b in m.byte_blocks}
+    sess.orig_cfg = world.ir.cfg
+    sess.pre_symbol_refs = {s.uuid: s.referent is not None for s in m.symbols}
+    sess.cache_cfg = None
     with instrumented(sess):
         try:
             ctx.apply()
